@@ -36,13 +36,19 @@ func H_C06_same_value_in_both_parsers() {
 
 var vSep []byte
 
+var vLeafRich bool // single-leaf shapes also draw odd-length hex strings and indirect references
+
 var vLeafIsRef bool // the tree just written contains an indirect reference (content streams have none)
 
 func vEmitSep(out []byte) []byte { return append(out, vSep...) }
 
 // vLeaf renders one leaf object with symbolic content and spelling and returns the expected value.
 func vLeaf(out []byte) ([]byte, core.Object) {
-	switch vAnyIntIn(0, 7) {
+	kinds := 7
+	if !vLeafRich {
+		kinds = 6 // two-leaf shapes: no indirect reference leaf (keeps the product of leaf kinds in reach)
+	}
+	switch vAnyIntIn(0, kinds) {
 	case 0: // integer: optional sign, 1..3 symbolic digits
 		neg := vAnyIntIn(0, 1) == 1
 		if neg {
@@ -95,7 +101,7 @@ func vLeaf(out []byte) ([]byte, core.Object) {
 	case 2: // hex string: 1..2 symbolic bytes, digit case symbolic
 		out = append(out, '<')
 		var val []byte
-		odd := vAnyIntIn(0, 1) == 1 // an odd number of digits is legal: the missing last digit is 0
+		odd := vLeafRich && vAnyIntIn(0, 1) == 1 // an odd number of digits is legal: the missing last digit is 0
 		for i, nb := 0, vAnyIntIn(1, 2); i < nb; i++ {
 			c := vAnyByte()
 			last := odd && i == nb-1
@@ -160,6 +166,7 @@ func vHexVal(c byte) byte {
 
 // vTree renders a tree of the given shape: 0 leaf, 1 [leaf leaf], 2 <</K leaf>>, 3 [[leaf] leaf]
 func vTree(out []byte, shape int) ([]byte, core.Object) {
+	vLeafRich = shape == 0 || shape == 2
 	switch shape {
 	case 0:
 		return vLeaf(out)
@@ -192,7 +199,7 @@ func vTree(out []byte, shape int) ([]byte, core.Object) {
 // H_C06_write_parse_roundtrip: an object tree written under any legal spelling parses back to the same tree in both parsers.
 //
 //symgo:harness prop=C06 kernel=K2-roundtrip
-//symgo:desc tree shapes {leaf, [leaf leaf], <</K leaf>>, [[leaf] leaf]} (quick: leaf and <</K leaf>>); leaves: integer (sign, 1..3 symbolic digits), literal string (0..2 symbolic bytes spelled raw / octal / named escape), hex string (1..2 bytes, symbolic digit case, even or odd number of digits), indirect reference n g R with the separator between its tokens (document-level parser only), name (1..2 symbolic bytes raw or #xx), true, false, null; token separator chosen once per document from {space, LF, CRLF, comment ended by LF, comment ended by CR, TAB+space, bare CR} (quick: first five; delimiters always separated); both core.ParseObject and contentstream.Parse (as the single operand of q) must return the tree
+//symgo:desc tree shapes {leaf, [leaf leaf], <</K leaf>>, [[leaf] leaf]} (quick: leaf and <</K leaf>>); leaves: integer (sign, 1..3 symbolic digits), literal string (0..2 symbolic bytes spelled raw / octal / named escape), hex string (1..2 bytes, symbolic digit case, even or - in the single-leaf shapes - odd number of digits), indirect reference n g R with the separator between its tokens (single-leaf shapes, document-level parser only), name (1..2 symbolic bytes raw or #xx), true, false, null; token separator chosen once per document from {space, LF, CRLF, comment ended by LF, comment ended by CR, TAB+space, bare CR} (quick: first five; delimiters always separated); both core.ParseObject and contentstream.Parse (as the single operand of q) must return the tree
 func H_C06_write_parse_roundtrip() {
 	nshapes, nseps := 1, 4
 	if vTier() > 0 {
